@@ -133,7 +133,7 @@ func (lg *locGen) op() map[string]interface{} {
 	switch k {
 	case 0:
 		o["op"] = "addfact"
-		if r.Intn(5) != 0 || lg.profile == "durable" || lg.profile == "cache" || lg.profile == "expiry" {
+		if r.Intn(5) != 0 || lg.profile == "durable" || lg.profile == "cache" || lg.profile == "expiry" || lg.hooks {
 			// (durable: a generated id of an add that fails at the storage is not reported back)
 			o["id"] = id
 		}
@@ -163,13 +163,13 @@ func (lg *locGen) op() map[string]interface{} {
 		if lg.profile == "expiry" {
 			lg.expiry(f)
 		}
-		if r.Intn(40) == 0 && lg.profile != "cronhooks" {
+		if r.Intn(40) == 0 && lg.profile != "cronhooks" && !lg.hooks {
 			f["rule"] = pick(r, 5.0, "x", map[string]interface{}{"when": 5.0}, map[string]interface{}{"schedule": 5.0}).(interface{})
 		}
 		o["fact"] = f
 	case 1:
 		o["op"] = "addrule"
-		if r.Intn(8) != 0 || lg.profile == "durable" || lg.profile == "cache" || lg.profile == "expiry" {
+		if r.Intn(8) != 0 || lg.profile == "durable" || lg.profile == "cache" || lg.profile == "expiry" || lg.hooks {
 			o["id"] = id
 		}
 		rule := rulePat(lg.pattern(lg.events[r.Intn(len(lg.events))]))
